@@ -210,6 +210,14 @@ class Response:
         # Set up Response.status
 
         if status is None:
+            # status_code and status_int are other spellings of status: like
+            # it, they decide whether the response is set up with a body
+            if "status_code" in kw:
+                status = kw.pop("status_code")
+            elif "status_int" in kw:
+                status = kw.pop("status_int")
+
+        if status is None:
             self._status = "200 OK"
         else:
             self.status = status
